@@ -50,7 +50,8 @@ MANIFEST = {
             "generators and oracle, the hand transcription M (checked against the compiled code on the schedules run only).",
     "design_ref": "DESIGN.md §4 C07, design/C07.md",
 }
-LEAN_MODULES = ["CoapVerif.Props.C07", "CoapVerif.Props.C07Late", "CoapVerif.Props.C07Sim", "CoapVerif.Props.C07Pers"]
+LEAN_MODULES = ["CoapVerif.Props.C07", "CoapVerif.Props.C07Late", "CoapVerif.Props.C07Sim", "CoapVerif.Props.C07Pers",
+                "CoapVerif.Props.C07Loop"]
 NAMESPACE = "Coap.C07"
 REQUIRED_THEOREMS = ["exactly_once_partial", "response_stops_retransmission", "con_response_always_acked",
                      "fail_verdict_resets", "non_delivered_once_per_datagram", "at_most_one_conclusion",
@@ -70,7 +71,11 @@ REQUIRED_THEOREMS = ["exactly_once_partial", "response_stops_retransmission", "c
                      # refinement: the harness loop Sim.run (what is compared with the real code) is a run of the closed loop Sys
                      "sim_run_refines_sys", "sim_run_is_sys_run", "sim_exactly_once_partial", "sim_exactly_once_piggybacked",
                      # the exclusion of dn / da from exactly_once_closed_loop_partial is necessary (decided runs of Sys)
-                     "dn_duplicate_delivered_twice_witness", "da_response_then_nack_witness"]
+                     "dn_duplicate_delivered_twice_witness", "da_response_then_nack_witness",
+                     # round 6: what DOES hold in the closed loop for dn / da, every run of Sys, and read on Sim.run
+                     "closed_loop_dn", "closed_loop_dn_never_both", "closed_loop_da", "closed_loop_da_both_iff",
+                     "closed_loop_da_at_most_once", "closed_loop_da_same_mid_partial",
+                     "sim_closed_loop_dn", "sim_closed_loop_dn_never_both", "sim_closed_loop_da"]
 RULE = ("schedules for harness/exchange.c (real client + real server context, virtual clock, scripted network): server personality "
         "(piggyback, coap_async delayed / triggered, application-delayed separate CON / NON / ACK-typed-with-own-mid, each with and "
         "without application-level request de-duplication) x request token (default 2 bytes, zero-length, 1 byte, 2..8 bytes) x fate of every datagram in order of transmission (deliver after d ms / drop / duplicate) x scripted "
